@@ -29,6 +29,7 @@ def required(tier):
         "nontrivial": 2000 if tier == "quick" else 20000,
         "routes.fly_vs_deferred": 3000,
         "routes.glr": 1500,
+        "routes.during_tree_build": 1500,
         "expected.compared": 1500,
         "shape.action_list": 200,
         "shape.named_eq": 200,
@@ -206,6 +207,8 @@ def build_all(text, g, spec):
     fly = pgx.lr(pgx.grammar(text), actions=acts)
     deferred = pgx.lr(pgx.grammar(text), actions=acts, build_tree=True)
     glr = pgx.glr(pgx.grammar(text), actions=acts)
+    # build the tree *and* call the actions on the way (their results are discarded): the tree must stay intact
+    deferred.during = pgx.lr(pgx.grammar(text), actions=acts, build_tree=True, call_actions_during_tree_build=True)
     return fly, deferred, glr
 
 
@@ -265,6 +268,21 @@ def check_input(ctx, g, spec, fly, deferred, glr, case, inp):
     if r1 != r2:
         ctx.violation("fly-vs-deferred", case, "on-the-fly result %s differs from call_actions(tree) %s" % (str(r1)[:300], str(r2)[:300]))
         return
+    during = getattr(deferred, "during", None)
+    if during is not None:
+        k5, tree5 = pgx.outcome(during.parse, inp)
+        ctx.count("routes.during_tree_build")
+        if k5 != "ret":
+            ctx.violation("during-tree-build-parser-differs", case, "Parser(build_tree=True, call_actions_during_tree_build=True) gives %s" % k5)
+            return
+        try:
+            r5 = norm(during.call_actions(tree5))
+        except Exception as e:  # noqa: BLE001
+            ctx.violation("call-actions-raises:" + type(e).__name__, case, "call_actions on the tree built with call_actions_during_tree_build raised %s: %s" % (type(e).__name__, str(e)[:200]))
+            return
+        if r5 != r1:
+            ctx.violation("during-tree-build-vs-fly", case, "tree built while calling actions evaluates to %s, on-the-fly result %s" % (str(r5)[:300], str(r1)[:300]))
+            return
     chart = cfg.Chart(g, inp)
     cnt = chart.count()
     go = glrobs.parse_glr(glr, inp)
@@ -342,6 +360,15 @@ def builtin_case(ctx):
     r2 = norm(deferred.call_actions(tree))
     if r2 != r1:
         ctx.violation("builtin-fly-vs-deferred", case, "%s vs %s" % (r1, r2))
+        return
+    during = pgx.lr(pgx.grammar(text), build_tree=True, call_actions_during_tree_build=True)
+    k5, tree5 = pgx.outcome(during.parse, inp)
+    try:
+        r5 = norm(during.call_actions(tree5)) if k5 == "ret" else ("outcome", k5)
+    except Exception as e:  # noqa: BLE001
+        r5 = ("raised", type(e).__name__, str(e)[:100])
+    if r5 != r1:
+        ctx.violation("builtin-during-tree-build", case, "tree built with call_actions_during_tree_build evaluates to %s, on-the-fly %s" % (r5, r1))
         return
     go = glrobs.parse_glr(glr, inp)
     if go.kind == "forest" and go.len == 1:
